@@ -559,7 +559,10 @@ def apply(st, op):
                 bad = ('no-answer', 'reader did not return within %d s of CPU '
                        'time (normal cost: milliseconds)' % CPU_CAP_S)
             else:
-                raise HarnessError('cut child died: %r' % (r,))
+                # the reader took the process down (signal): neither "raises" nor
+                # "exposes complete steps"
+                bad = ('reader-crashed', 'the reading process died (wait status %r)' % (
+                    r.get('status'),))
             if bad is not None:
                 sig = {'format': fmt, 'what': bad[0]}
                 kn = w.known_match(dict(sig, invariant='truncated-file-misread'))
